@@ -569,7 +569,7 @@ func errMappingRules(r *Run, prefix string) {
 			r.neverReach(prefix+":closed-by-"+m.name+"-no-other-outcome:"+fn.Name(), "the closed-by-"+m.name+" branch neither blocks again nor produces another error", fn, nil, starts,
 				anyOf(bad...), nil, nil, nil, "no receive / other Exception reachable")
 		}
-		}
+	}
 }
 
 // expiredRule: on the edge "remaining time <= 0" (a time.Duration compared with 0) every path returns the timeout error.
